@@ -92,6 +92,29 @@ def run(pid, spec, tier, seed, outdir):
             if rc != 0 and not (listing(tdir) - before) and "hung or terminated unexpectedly" in out and attempt < 2:
                 report.setdefault("retries", []).append(tg)
                 continue
+            # ... or it dies while an input is being minimised, and the fuzzer then saves whatever it was holding
+            # (seen: the one-byte input "\x01" while twelve other jobs were using the machine). The saved input is
+            # the reproducible unit: it is replayed in a plain test run, and only an input that fails there is a
+            # crasher. One that passes is dropped and the campaign is repeated.
+            if rc != 0 and "hung or terminated unexpectedly" in out:
+                unconfirmed = []
+                for name in sorted(listing(tdir) - before):
+                    try:
+                        rp = subprocess.run(["go", "test", "./" + PKG, "-run", "^%s$/^%s$" % (tg, name), "-count=1", "-timeout", "10m"],
+                                            cwd=vlib.HARNESS, env=env, stdout=subprocess.PIPE, stderr=subprocess.STDOUT,
+                                            text=True, errors="replace", timeout=900)
+                        passed = rp.returncode == 0 and "no tests to run" not in rp.stdout
+                    except subprocess.TimeoutExpired:
+                        passed = False
+                    if passed:
+                        unconfirmed.append(name)
+                        os.remove(os.path.join(tdir, name))
+                if unconfirmed:
+                    report.setdefault("unconfirmed_inputs", []).extend("%s/%s" % (tg, n) for n in unconfirmed)
+                    if not (listing(tdir) - before):
+                        if attempt < 2:
+                            continue
+                        # three campaigns ended by worker deaths and no input fails: INCONCLUSIVE below
             break
         wall = time.time() - t0
         open(os.path.join(outdir, "fuzz-%s.log" % tg), "w").write(out)
